@@ -24,6 +24,8 @@ Record own_case := mkOwn {
   oc_ops : list (bytes * stage);      (* AddStage calls in order *)
   oc_acc : list bool;                 (* accepted? as observed *)
   oc_reload : bool;                   (* the written index loaded again *)
+  oc_loadall : bool;                  (* an index listing ALL the stages (as a user editing stage files
+                                         after `dud stage add` leaves them) is accepted by index.FromFile *)
   oc_owner : list (bytes * option bytes) }.  (* findOwner probes on the final index: path -> owning stage *)
 
 Fixpoint model_adds (idx : index) (ops : list (bytes * stage)) : list bool * index :=
@@ -59,10 +61,15 @@ Definition verdict_own (c : own_case) : N :=
                                  | Some (sp, _), Some sp' => beqb sp sp'
                                  | None, None => true
                                  | _, _ => false end) (oc_owner c) in
-  let corr := list_eqb Bool.eqb macc (oc_acc c) && Bool.eqb mreload (oc_reload c) && mown in
+  let mloadall := match load_index (map fst (oc_ops c)) (map (fun e => (fst e, Some (snd e))) (oc_ops c)) [] with
+                  | Some _ => true | None => false end in
+  let corr := list_eqb Bool.eqb macc (oc_acc c) && Bool.eqb mreload (oc_reload c) && mown &&
+              Bool.eqb mloadall (oc_loadall c) in
   (* the property on the implementation: accepted exactly when no overlap exists; an index
      written after successful adds loads again *)
-  let spec := list_eqb Bool.eqb (ref_adds [] (oc_ops c) []) (oc_acc c) && oc_reload c in
+  let spec := list_eqb Bool.eqb (ref_adds [] (oc_ops c) []) (oc_acc c) && oc_reload c &&
+              (* however the index file came about, it is loaded only if no output lies inside another *)
+              Bool.eqb (oc_loadall c) (forallb (fun b => b) (ref_adds [] (oc_ops c) [])) in
   (if corr then 0 else 1) + (if spec then 0 else 2).
 
 Definition run_own (cs : list own_case) : list (N * N) :=
